@@ -137,6 +137,8 @@ FIXED_SHAPES = [
     # mixed-case extensions, names with dots and dashes, non-recursive run over a tree with sub-directories
     (["a.cmake", "Upper.CMake", "dot.name.cmake", "dash-name.cmake", "keep/b.cmake"], False, True, []),
     (["a.cmake", "keep/b.cmake", "keep/deep/x1.cmake", "empty/"], True, False, ["deep/"]),
+    # F19: no -r, auto-exclusion on, every CMake file of the input directory excluded: nothing below it may be documented
+    (["x1.cmake", "x2.cmake", "keep/b.cmake"], False, True, ["x*.cmake"]),
 ]
 
 
